@@ -174,6 +174,9 @@ func (m *SubscribeMessage) Decode(src []byte) (int, error) {
 	m.packetID = src[total : total+2]
 	total += 2
 
+	// the message may have been used before: the list is that of this packet only
+	m.topics, m.qos = nil, nil
+
 	remlen := int(m.remlen) - (total - hn)
 	for remlen > 0 {
 		t, n, err := readLPBytes(src[total:])
